@@ -265,6 +265,13 @@ fn node_scenario(a: &[&str]) -> String {
                     w.queue.retain(|x| *x != k);
                     "-".into()
                 }
+                "Z" => {
+                    // lose everything in flight that node i sent (i = 0: everything)
+                    let i: u32 = num(p[1]);
+                    let sent = &w.sent;
+                    w.queue.retain(|k| !(i == 0 || sent[*k].0 == i));
+                    "-".into()
+                }
                 "A" => {
                     // deliver everything in flight, FIFO, until quiet (bounded)
                     let mut n = 0;
